@@ -187,6 +187,40 @@ def case(rng: Any, ctx: Ctx, index: int) -> None:
             compare('C15.factory', f'{which}.create/after-use-as-{side}-factor', ref_f, f, tol * 2)
     guarded('C15.factory', j_factory)
 
+    # 3c. a factory result used as ONE item of an explicitly constructed chain (a composition nested in a composition)
+    def j_nested() -> None:
+        f = HWPOperator.create(shape, dt, kind, angles=a)
+        e = CompositionOperator([P, Rb, f])
+        ref_n = M['P'] @ M['Rb'] @ M['RT'] @ M['H'] @ M['R']
+        compare('C15.factory', 'nested-chain[pol, R(b), hwp.create(a)]/unreduced', ref_n, e, tol * 3)
+        compare('C15.factory', 'nested-chain[pol, R(b), hwp.create(a)]/reduced', ref_n, e.reduce(), tol * 3)
+    if rng.integers(3) == 0:
+        guarded('C15.factory', j_nested)
+
+    # 3d. chains built INSIDE a traced function from traced angle arrays (angles as arguments of a jit)
+    def j_traced() -> None:
+        form = gen.pick(rng, ['R(a)R(b)', 'R(a)R(b).T', 'R(a).T R(b)', 'R(a).T R(b).T'])
+        ref_t = {'R(a)R(b)': M['R'] @ M['Rb'], 'R(a)R(b).T': M['R'] @ M['RbT'], 'R(a).T R(b)': M['RT'] @ M['Rb'], 'R(a).T R(b).T': M['RT'] @ M['RbT']}[form]
+
+        def build(aa: Any, bb: Any) -> Any:
+            ra, rb = QURotationOperator(aa, s), QURotationOperator(bb, s)
+            return {'R(a)R(b)': lambda: ra @ rb, 'R(a)R(b).T': lambda: ra @ rb.T, 'R(a).T R(b)': lambda: ra.T @ rb, 'R(a).T R(b).T': lambda: ra.T @ rb.T}[form]()
+        reduce_it = bool(rng.integers(2))
+        LOG.evaluated('C15.identity')
+        LOG.count('C15.traced-angles', form)
+        try:
+            y = jax.jit(lambda aa, bb, xx: (build(aa, bb).reduce() if reduce_it else build(aa, bb)).mv(xx))(jnp.asarray(a), jnp.asarray(b), x)
+        except Exception as exc:  # noqa: BLE001
+            LOG.violation('C15', 'C15.identity', f'{form}/traced-angles/raises-{type(exc).__name__}',
+                          'the product cannot be formed inside a jit whose arguments are the angle arrays: ' + str(exc)[:120])
+            return
+        exp = ref_t @ dense.flatten_np(x)
+        ok, err = dense.close(exp, dense.flatten_np(y), tol * 4)
+        if not ok:
+            LOG.violation('C15', 'C15.identity', f'{form}/traced-angles/values', f'rel err {err:.3g}')
+    if rng.integers(4) == 0 and not big:
+        guarded('C15.identity', j_traced)
+
     # 4. random chain of these operators with scalars and inert operators
     def j_chain() -> None:
         n = int(rng.integers(2, 7 if ctx.thorough else 5))
